@@ -19,6 +19,7 @@ type Exec struct {
 	posOf        map[string]FmtPos
 	lastAcq      *State
 	monAcq       map[string]*State // state right after the latest acquisition of a monitor (old() of its guarantee clauses)
+	guardedMaps  map[string]string // dom heap key of a guarded map type -> mutex key of its monitor
 	guardedBy    map[string]string // heap key of a guarded field -> mutex key of its monitor
 	sharedOf     map[string]string // slice term -> condition under which its backing array extends into elements of the slice it was cut from
 	coverDone    map[*AtSpec]bool
